@@ -374,7 +374,7 @@ def c11_7(ctx, ss):
         form = "in place"
         idx, el = (e.id for e in lp.target.elts)
         conds = [(txt(e), pol) for kind, e, pol in guards.path_conditions(lp, st) if kind == "if"]
-        ok = txt(st.targets[0].slice) == idx and txt(st.targets[0].value) == txt(lp.iter.args[0]) and txt(st.value) in (f"next(iter({el}.keys()))", f"next(iter({el}))") \
+        ok = txt(st.targets[0].slice) == idx and txt(st.targets[0].value) == txt(lp.iter.args[0]) and txt(st.value) in (f"next(iter({el}))", f"next(iter({el}))") \
             and conds == [(f"isinstance({el}, dict)", True)] and clean and txt(rec[0].args[1]).endswith(f"[{idx}]")
     elif not stores:
         # append form: a fresh list receives, for every element in order, the key of a nested dictionary or the element itself
@@ -387,7 +387,7 @@ def c11_7(ctx, ss):
             for c in apps:
                 conds = [(txt(e), pol) for kind, e, pol in guards.path_conditions(lp, next(x for x in pf.iter_stmts(lp.body) if isinstance(x, ast.Expr) and x.value is c)) if kind == "if"]
                 byv[txt(c.args[0])] = conds
-            keyforms = [v for v in byv if v in (f"next(iter({el}.keys()))", f"next(iter({el}))")]
+            keyforms = [v for v in byv if v in (f"next(iter({el}))", f"next(iter({el}))")]
             rconds = [(txt(e), pol) for kind, e, pol in guards.path_conditions(lp, next(x for x in pf.iter_stmts(lp.body) if isinstance(x, ast.Expr) and x.value is rec[0])) if kind == "if"] if len(rec) == 1 else None
             ok = len(keyforms) == 1 and byv.get(keyforms[0]) == [(f"isinstance({el}, dict)", True)] and byv.get(el) == [(f"isinstance({el}, dict)", False)] and clean \
                 and rconds == [(f"isinstance({el}, dict)", True)] and (txt(rec[0].args[1]) == el or txt(rec[0].args[1]).endswith("]"))
@@ -437,7 +437,7 @@ def c11_7b(ctx, ss):
 def c11_7c(ctx, ss):
     ch, cflow = fn(ss, DECAY, "DecayChain.from_dict")
     r = returns(ch)
-    okc = len(r) == 1 and cflow.text(r[0].value) in ("cls(next(iter(decay_chain_dict.keys())), {})", "cls(next(iter(decay_chain_dict.keys())), decay_modes)") and \
+    okc = len(r) == 1 and cflow.text(r[0].value) in ("cls(next(iter(decay_chain_dict)), {})", "cls(next(iter(decay_chain_dict)), decay_modes)") and \
         any(txt(c.func) == "_build_decay_modes" and txt(c.args[1]) == "decay_chain_dict" for c in pf.calls_in(ch.node))
     (ctx.holds if okc else ctx.violation)("C11.7", ckey(ch, None, "entry"), where(ch, ch.node),
                                           "DecayChain.from_dict = cls(first key, modes collected from the whole dictionary)" if okc else "DecayChain.from_dict frame changed")
